@@ -76,6 +76,24 @@ static void checkOne(const std::string& src, bool verbose = false) {
             size_t le = (size_t)e.line < lineStart.size() ? lineStart[e.line] : src.size() + 1;
             if (ls + (size_t)e.column - 1 > le)
                 violation("reject:position", "Lexical error column " + std::to_string(e.column) + " is beyond the end of line " + std::to_string(e.line), src);
+            else {
+                // every Lexical error is about a malformed literal (number, string, char): like a token, it is reported where the
+                // literal starts - on its opening quote or its first digit
+                size_t off = ls + (size_t)e.column - 1;
+                bool starts = off < src.size() && (src[off] == '"' || src[off] == '\'' || isdigit((unsigned char)src[off]));
+                if (starts && off > 0) {
+                    // ... and everything before it is well-formed on its own: the lexer accepts the prefix
+                    try {
+                        Lexer pre(std::string_view(heap.get(), off));
+                        (void)pre.tokenize();
+                    } catch (const BlochError&) {
+                        starts = false;
+                    }
+                }
+                if (!starts)
+                    violation("reject:position:not-literal-start", "Lexical error at (" + std::to_string(e.line) + "," + std::to_string(e.column) + ") = offset " + std::to_string(off) +
+                              " does not point at the first character of a literal: " + std::string(e.what()), src);
+            }
         }
         if (verbose) printf("rejected: %s\n", e.what());
         return;
